@@ -93,6 +93,18 @@ def check(run, tier, seed):
 def replay(run, path):
     import json
     c = json.loads(open(path).read())
+    if 'mixed_edges' in c and 'node' in c:
+        from cai_causal_graph.identify_utils import identify_markov_boundary
+        mg = [tuple(e) for e in c['mixed_edges']]
+        g = D.build_mixed(c['n'], mg)
+        try:
+            got = sorted(identify_markov_boundary(g.skeleton, c['node']))
+        except Exception as e:  # noqa: BLE001
+            got = f'raised {type(e).__name__}'
+        print('skeleton markov boundary', got, 'expected', c['expected'])
+        if got != c['expected']:
+            run.violation(dict(c, got=got), note='skeleton markov boundary')
+        return 1 if run.violations else 0
     if 'mixed_edges' in c:
         g = D.build_mixed(c['n'], [tuple(e) for e in c['mixed_edges']])
         ix = {D.NAMES[i]: i for i in range(c['n'])}
